@@ -171,6 +171,17 @@ func (fv *FuncVerifier) globalVar(o *types.Var) Term {
 		}
 		return Term{name, s}
 	}
+	if strings.HasSuffix(fv.prog.fset.Position(o.Pos()).Filename, "zz_verif_spec_gen.go") {
+		// ghost variable: a fixed reference (content lives in the heaps)
+		fv.u.declare("const:"+name, fmt.Sprintf("(declare-const %s %s)", name, s.Name))
+		t := Term{name, s}
+		if s.Kind == KRef && !fv.u.declared["ghostinit:"+name] {
+			fv.u.declared["ghostinit:"+name] = true
+			al := fv.allocSet(&State{heaps: map[string]Term{}}, s)
+			fv.u.decls = append(fv.u.decls, fmt.Sprintf("(assert (and (> %s 0) (select %s %s)))", name, al.S, name))
+		}
+		return t
+	}
 	// try its initializer when it is a constant-like composite
 	if init := fv.prog.globalInit(o); init != nil {
 		if t, ok := fv.evalGlobalInit(o, init); ok {
@@ -270,7 +281,9 @@ func (fv *FuncVerifier) assumeTyped(st *State, v Term, t types.Type) {
 	case KRef:
 		// a pointer/map value is nil or refers to an allocated object
 		st.assume(mk(sortBool, "(>= %s 0)", v.S))
-		st.assume(or(eq(v, Term{"0", sortInt}), sel(fv.allocSet(st, v.Sort), v, sortBool)))
+		if !fv.noAllocAssume {
+			st.assume(or(eq(v, Term{"0", sortInt}), sel(fv.allocSet(st, v.Sort), v, sortBool)))
+		}
 	case KSlice:
 		st.assume(mk(sortBool, "(>= %s 0)", slLen(v).S))
 		// a slice fits in the address space: len * sizeof(elem) <= MaxInt64
